@@ -224,6 +224,22 @@ def check(rep, ctx):
         rep.check(R_RD, not bad, construct=f"kio.serial.readers:{name}", stmt=f"{name}: guards {[g['cond'] for g in d.get('range_guards') or []]}",
                   message="; ".join(f"the reader raises {'/'.join(g.get('else') or ['?'])} for the wire value {v}, which is inside the domain "
                                     f"[{lo}, {hi}] its writer emits (guard {g['cond']})" for v, g in bad), file=rfile, line=rec["line"])
+    # primitives are functions of their arguments: no module-level or closure state in readers.py / writers.py
+    from .. import scan
+    R_ST = rep.rule("C11-stateless", "the primitive readers and writers keep no module-level mutable state and mutate nothing captured from an "
+                    "enclosing scope (re-entrant: a value writer may itself call the same primitive)", floor=0,
+                    necessary_because="write_tagged_field staging in a module-level buffer: a tagged struct that contains a tagged field resets the "
+                                      "buffer its parent is being staged in")
+    PRIM = ["kio.serial.readers", "kio.serial.writers"]
+    for st_ in scan.module_state(ctx, PRIM):
+        if st_["kind"] in ("module-mutable", "global", "nonlocal"):
+            rep.check(R_ST, False, construct=f"{st_['module']}:{st_['function']}", stmt=st_["stmt"],
+                      message=f"{st_['kind']}: {st_['name']} {st_['what']}: the bytes a primitive emits depend on calls in progress or left unfinished",
+                      file=st_["file"], line=st_["line"])
+    for m_ in scan.captured_mutations(ctx, PRIM):
+        rep.check(R_ST, False, construct=m_["function"], stmt=m_["stmt"], message=f"mutates {m_['name']!r} of the enclosing {m_['outer']}",
+                  file=m_["file"], line=m_["line"])
+    rep.count(R_ST, len(PRIM), instance="scan")
     # every raw read of the readers module is a checked exact read ---------------------------------------------
     R_X = rep.rule("C11-exact-reads", "every read in kio.serial.readers is length-checked with equality before its bytes are used", floor=1,
                    necessary_because="read(n) with a negative n returns everything up to EOF; `len(value) < n` never fires, so 'ff fe hello' "
